@@ -37,7 +37,8 @@ def http_stream(run):
         return
     pairs = http_pairs(run.rng, run.tier)
     IN = lambda i: H("GET /i/%s HTTP/1.1\r\nHost: h\r\n\r\n" % i)
-    OUT = lambda i: H("POST /o/%s HTTP/1.1\r\nHost: h\r\nTransfer-Encoding: chunked\r\n\r\n" % i)
+    # (Expect: 100-continue, as curl -T- sends it: net/http then answers a handler that never read the body at once, without draining it)
+    OUT = lambda i: H("POST /o/%s HTTP/1.1\r\nHost: h\r\nTransfer-Encoding: chunked\r\nExpect: 100-continue\r\n\r\n" % i)
     groups = [pairs[k::8] for k in range(8)]
     cases = []
     for g in groups:
@@ -47,7 +48,8 @@ def http_stream(run):
                      {"a": "open", "id": "p2", "req": (OUT if first_in else IN)(b), "quiet_ms": 150},
                      {"a": "line", "l": H("LINE-FOR-SHELL"), "quiet_ms": 60},
                      # (net/http drains a request body before answering: the refused output's response is complete once its body is)
-                     {"a": "send", "id": "p2" if first_in else "p1", "d": H("7\r\nOUTPUT!\r\n" + ("0\r\n\r\n" if first_in else "")), "quiet_ms": 80},
+                     {"a": "peek", "id": "p2", "quiet_ms": 10},          # before anything more is sent: a refused attempt has been answered by now
+                     {"a": "send", "id": "p2" if first_in else "p1", "d": H("7\r\nOUTPUT!\r\n"), "quiet_ms": 80},
                      {"a": "peek", "id": "p2", "quiet_ms": 10},
                      {"a": "close", "id": "p2", "quiet_ms": 100}, {"a": "close", "id": "p1", "quiet_ms": 250}]
         cases.append({"i": len(cases), "cfg": {}, "acts": acts})
@@ -65,17 +67,17 @@ def http_stream(run):
         consts = r.get("consts", {})
         acts = r.get("acts") or []
         for n, (a, b, first_in) in enumerate(g):
-            A = acts[7 * n:7 * n + 7]
+            A = acts[8 * n:8 * n + 8]
             lines = lambda x: [(bytes.fromhex(l["line"]).decode(errors="replace"), l.get("plain")) for l in x.get("och") or []]
             ready = any(consts.get("ready", "Shell is ready") in l for l, _ in lines(A[1]))
             told = any("Rejected" in l for l, p in lines(A[1]) if not p)
             # I/O of the second request: as the input it must get no line; as the output nothing it sends is displayed
-            second_peek = bytes.fromhex(A[4].get("got", "") or "")
+            second_peek = bytes.fromhex(A[5].get("got", "") or "")
             if first_in:
-                io = any(p and "OUTPUT!" in l for x in A[3:5] for l, p in lines(x))
+                io = any(p and "OUTPUT!" in l for x in A[3:6] for l, p in lines(x))
             else:
                 io = b"LINE-FOR-SHELL" in second_peek
-            ended = bool(A[4].get("ended"))
+            ended = bool(A[3].get("ended"))
             inputs.append({"first": ("/i/" if first_in else "/o/") + a, "second": ("/o/" if first_in else "/i/") + b})
             results.append({"a": a, "b": b, "first_in": first_in, "paired": ready, "told": told, "io": io, "ended": ended})
     B_ = lambda x: str(bool(x)).lower()
@@ -111,6 +113,22 @@ def check(run):
                  "random histories (length 6-40) of /i /o /io attempts with equal / prefix-related / case-variant / empty / NUL / long IDs, "
                  "endings (EOF, errors, client cancel, input closed), releases in every order, lines, output, shutdown; biased to stay near "
                  "full attachment and inside tear-down windows")
+    # refusals while the operator's terminal is stalled: the notice waits for room, it is not dropped
+    st = []
+    for cap in (1, 2, 3):
+        for kind in ("wrongkey", "duplicate", "nokey"):
+            for flood in (cap, cap + 4):
+                ops = [{"op": "admit", "s": 1, "d": "out", "key": B.K(b"a"), "wk": "plain", "wfail": -1, "ffail": -1}, {"op": "drain", "n": 8}]
+                ops += [{"op": "data", "s": 1, "d": B.K(b"flood %d|" % j), "err": ""} for j in range(flood)]
+                bad = {"wrongkey": ("in", b"b"), "duplicate": ("out", b"a"), "nokey": ("in", b"")}[kind]
+                ops.append({"op": "admit", "s": 3, "d": bad[0], "key": B.K(bad[1]), "wk": "plain", "wfail": -1, "ffail": -1})
+                ops += [{"op": "drain", "n": 64}] * 4
+                st.append({"ops": ops, "ochcap": cap})
+    B.run_stream(run, binp, "stalledrefusals", 1, st, {1: "an attempt was refused while the operator's terminal was stalled (output queue full) and the operator was "
+                                                        "never told: the refusal notice was dropped instead of waiting for room"},
+                 "a flood from the attached shell fills the operator channel (capacity 1-3, terminal stalled), then a rogue attempt (wrong ID / duplicate "
+                 "direction / no ID) arrives, then the terminal catches up: by the end every attempt that was not attached has its refusal notice",
+                 judge="judge_c01s")
     http_stream(run)
     B.run_stream(run, binp, "goneclients", 1, B.gone_clients(run.rng, 60 if run.tier == "quick" else 1500), CLAUSES,
                  "attempts whose client has already hung up when they reach admission (request context done beforehand) on an idle, half attached "
